@@ -46,7 +46,7 @@ func genCase(t *rapid.T) Case {
 	c.Leaf = gen.LeafID(t, leafIDs, "leaf")
 	l := ref.ParseLeaf(c.Leaf)
 	c.Limit = []int{1, 2, 4, 16, 64, 1 << 20}[rapid.IntRange(0, 5).Draw(t, "limit")]
-	c.Via = []string{"indexer", "indexer", "indexer", "writer", "multi"}[rapid.IntRange(0, 4).Draw(t, "via")]
+	c.Via = []string{"indexer", "indexer", "indexer", "writer", "multi", "buffer"}[rapid.IntRange(0, 5).Draw(t, "via")]
 	layout := rapid.IntRange(0, 5).Draw(t, "layout") // 0-2 ascending, 3 descending, 4-5 arbitrary
 	st := []gen.Style{gen.Mixed, gen.SmallDom, gen.Wide}[rapid.IntRange(0, 2).Draw(t, "style")]
 	o := gen.Opts{NoNaN: true, MaxBytes: 24}
@@ -182,6 +182,41 @@ func minMax(l ref.Leaf, vs []ref.V) (mn, mx ref.V) {
 	return
 }
 
+// bufferIndex: the column index and the type an in-memory Buffer reports for
+// its (single page) column chunk.
+func bufferIndex(c Case, l ref.Leaf, node parquet.Node) (parquet.ColumnIndex, parquet.Type, error) {
+	nulls := 0
+	for _, p := range c.Pages {
+		nulls += p.Nulls
+	}
+	n := parquet.Node(parquet.Optional(node))
+	def := 1
+	if nulls == 0 && c.Limit%4 == 0 {
+		n, def = parquet.Required(node), 0
+	}
+	b := parquet.NewBuffer(parquet.NewSchema("root", parquet.Group{"x": n}))
+	for _, p := range c.Pages {
+		for i, v := range p.Values {
+			if _, err := b.WriteRows([]parquet.Row{{pq.Scalar(l, v.I, v.B).Level(0, def, 0)}}); err != nil {
+				return nil, nil, err
+			}
+			for k := 0; i == 0 && k < p.Nulls; k++ {
+				if _, err := b.WriteRows([]parquet.Row{{parquet.NullValue().Level(0, 0, 0)}}); err != nil {
+					return nil, nil, err
+				}
+			}
+		}
+		for k := 0; len(p.Values) == 0 && k < p.Nulls; k++ {
+			if _, err := b.WriteRows([]parquet.Row{{parquet.NullValue().Level(0, 0, 0)}}); err != nil {
+				return nil, nil, err
+			}
+		}
+	}
+	chunk := b.ColumnChunks()[0]
+	ix, err := chunk.ColumnIndex()
+	return ix, chunk.Type(), err
+}
+
 func buildIndex(c Case, l ref.Leaf, node parquet.Node) (parquet.ColumnIndex, error) {
 	typ := node.Type()
 	if c.Via == "indexer" {
@@ -254,7 +289,20 @@ func runCase(c Case, o *kit.Obs) *kit.Failure {
 	l := ref.ParseLeaf(c.Leaf)
 	node := pq.LeafNode(c.Leaf)
 	typ := node.Type()
-	index, err := buildIndex(c, l, node)
+	var index parquet.ColumnIndex
+	var err error
+	if c.Via == "buffer" {
+		// one page holding everything
+		var one Page
+		for _, p := range c.Pages {
+			one.Nulls += p.Nulls
+			one.Values = append(one.Values, p.Values...)
+		}
+		c.Pages = []Page{one}
+		index, typ, err = bufferIndex(c, l, node)
+	} else {
+		index, err = buildIndex(c, l, node)
+	}
 	if err != nil {
 		return kit.Failf("c06/build-error{via="+c.Via+"}", "building the index failed: %v", err)
 	}
@@ -423,7 +471,7 @@ var spec = &kit.Spec[Case]{
 	Name:     "search",
 	Rule: "page plans (sorted ascending / descending / arbitrary values of 20 leaf types split into 1-4 value pages, all-null pages inserted " +
 		"where the zero placeholder keeps the claimed order or anywhere, ColumnIndexSizeLimit in {1,2,4,16,64,1<<20}) turned into a column index " +
-		"either through Type.NewColumnIndexer/IndexPage/NewColumnIndex or by writing a one-column file with one Flush per page; probes = every " +
+		"either through Type.NewColumnIndexer/IndexPage/NewColumnIndex, by writing a one-column file with one Flush per page (also cut into row groups and indexed through MultiRowGroup), or by writing everything to a Buffer (one page; searched with the type its column chunk reports); probes = every " +
 		"present value plus generated absent ones. Non-trivial = the index claims ASCENDING/DESCENDING and has a null page that is not last, or has equal/overlapping bounds.",
 	Assumptions: []string{
 		"NaN is kept out of values and probes (no order defined)",
